@@ -260,51 +260,56 @@ def emptyValue : BaseType → IVal
   | .bytefield => .bytes []
   | _ => .str []
 
+/-- interpretation of the extracted raw bits according to base type and encoding -/
+def convertRaw (bt : BaseType) (enc : Option Enc) (hl : Bool) (bl raw : Nat) : DecM IVal :=
+  match bt with
+  | .bytefield => do
+    odxassert (enc = none ∨ enc = some .none_ ∨ enc = some .bcdp ∨ enc = some .bcdup)
+    -- `r<bl>`: ceil(bl/8) bytes, value bits left-aligned
+    pure (IVal.bytes (toBytesBE ((bl + 7) / 8) (raw * 2 ^ ((8 - bl % 8) % 8))))
+  | .ascii | .utf8 | .unicode2 => do
+    let bytes := toBytesBE ((bl + 7) / 8) (raw * 2 ^ ((8 - bl % 8) % 8))
+    let codec ← (match stringCodec bt enc hl with
+      | some c => pure c
+      | none => do odxraise .odx; pure Text.Codec.latin1)
+    match Text.decode codec bytes with
+    | some cps => pure (IVal.str cps)
+    | none => do odxraise .decode; raise .unmodelled              -- lenient: errors="replace"
+  | .int32 => do
+    if ¬ (enc = none ∨ enc = some .onec ∨ enc = some .twoc ∨ enc = some .sm) then odxraise .odx
+    pure (IVal.int (int32OfRaw enc bl raw))
+  | .uint32 => do
+    if ¬ (enc = none ∨ enc = some .none_ ∨ enc = some .bcdp ∨ enc = some .bcdup) then odxraise .odx
+    pure (IVal.int (uint32OfRaw enc raw))
+  | .float32 => do
+    odxassert (enc = none ∨ enc = some .none_)
+    match Text.f32to64? raw with
+    | some b => pure (IVal.flt b)
+    | none => raise .unmodelled
+  | .float64 => do
+    odxassert (enc = none ∨ enc = some .none_)
+    pure (IVal.flt raw)
+
+/-- the part of `extract_atomic_value` after the bit length has been settled -/
+def extractCore (bl : Nat) (bt : BaseType) (enc : Option Enc) (hl : Bool) : DecM IVal := do
+  let s ← getS
+  let bp := s.cursorBit
+  let k := (bl + bp + 7) / 8
+  if s.cursorByte + k > s.msg.length then raise .decode     -- "Expected a longer message."
+  else if !bt.isNumeric && bl % 8 ≠ 0 then raise .unmodelled -- `r<n>`, n % 8 ≠ 0: backends differ; outside the envelope
+  else
+    let rev := !hl && bt.isNumeric
+    let n := readNum s.msg s.cursorByte k (!rev)
+    let raw := n / 2 ^ bp % 2 ^ bl
+    let v ← convertRaw bt enc hl bl raw
+    modifyS fun s => { s with cursorByte := s.cursorByte + k, cursorBit := 0 }
+    pure v
+
 /-- `DecodeState.extract_atomic_value` -/
 def extractAtomic (bl : Nat) (bt : BaseType) (enc : Option Enc) (hl : Bool) : DecM IVal := do
   if bl = 0 then pure (emptyValue bt)
-  else
-    let bl ←
-      if bt = .float32 ∧ bl ≠ 32 then do odxraise .odx; pure 32
-      else if bt = .float64 ∧ bl ≠ 64 then do odxraise .odx; pure 64
-      else pure bl
-    let s ← getS
-    let bp := s.cursorBit
-    let k := (bl + bp + 7) / 8
-    if s.cursorByte + k > s.msg.length then raise .decode     -- "Expected a longer message."
-    else if !bt.isNumeric && bl % 8 ≠ 0 then raise .unmodelled -- `r<n>`, n % 8 ≠ 0: backends differ; outside the envelope
-    else
-      let rev := !hl && bt.isNumeric
-      let n := readNum s.msg s.cursorByte k (!rev)
-      let raw := n / 2 ^ bp % 2 ^ bl
-      let v ← (match bt with
-        | .bytefield => do
-          odxassert (enc = none ∨ enc = some .none_ ∨ enc = some .bcdp ∨ enc = some .bcdup)
-          -- `r<bl>`: ceil(bl/8) bytes, value bits left-aligned
-          pure (IVal.bytes (toBytesBE ((bl + 7) / 8) (raw * 2 ^ ((8 - bl % 8) % 8))))
-        | .ascii | .utf8 | .unicode2 => do
-          let bytes := toBytesBE ((bl + 7) / 8) (raw * 2 ^ ((8 - bl % 8) % 8))
-          let codec ← (match stringCodec bt enc hl with
-            | some c => pure c
-            | none => do odxraise .odx; pure Text.Codec.latin1)
-          match Text.decode codec bytes with
-          | some cps => pure (IVal.str cps)
-          | none => do odxraise .decode; raise .unmodelled      -- lenient: errors="replace"
-        | .int32 => do
-          if ¬ (enc = none ∨ enc = some .onec ∨ enc = some .twoc ∨ enc = some .sm) then odxraise .odx
-          pure (IVal.int (int32OfRaw enc bl raw))
-        | .uint32 => do
-          if ¬ (enc = none ∨ enc = some .none_ ∨ enc = some .bcdp ∨ enc = some .bcdup) then odxraise .odx
-          pure (IVal.int (uint32OfRaw enc raw))
-        | .float32 => do
-          odxassert (enc = none ∨ enc = some .none_)
-          match Text.f32to64? raw with
-          | some b => pure (IVal.flt b)
-          | none => raise .unmodelled
-        | .float64 => do
-          odxassert (enc = none ∨ enc = some .none_)
-          pure (IVal.flt raw))
-      modifyS fun s => { s with cursorByte := s.cursorByte + k, cursorBit := 0 }
-      pure v
+  else if bt = .float32 ∧ bl ≠ 32 then do odxraise .odx; extractCore 32 bt enc hl
+  else if bt = .float64 ∧ bl ≠ 64 then do odxraise .odx; extractCore 64 bt enc hl
+  else extractCore bl bt enc hl
 
 end OdxVerif.Codec
